@@ -48,7 +48,9 @@ def run_c18(srcs):
     res = {}
     for l in p.stdout.splitlines():
         if l.startswith("{"):
-            d = json.loads(l); res[d["index"]] = d["result"]
+            try: d = json.loads(l)
+            except ValueError: continue      # the harness process died in the middle of a line
+            res[d["index"]] = d["result"]
     return res, p.returncode, p.stderr[-800:]
 
 def check(res):
@@ -80,7 +82,7 @@ def check(res):
     cross = [i for i in range(min(len(d1), len(d2), len(d3))) if not (d1[i] == d2[i] == d3[i])]
     if len(d1) != len(srcs): missing.append(-1)
     ok = not bad and not missing and not cross and rc1 == 0
-    res.oblige("search/correspondence: %d sources x (64 sequential repetitions interleaved with other and failing compilations + 16 concurrent goroutines + 3 processes): identical deep dumps" % len(srcs), ok, str(bad[:1] or missing[:3] or cross[:3] or err1))
+    res.oblige("search/correspondence: %d sources x (64 sequential repetitions interleaved with other and failing compilations + 16 concurrent goroutines + 3 processes): identical deep dumps; every result object (code or error with its location attributes) held from a first compilation is unchanged after all later ones, no two failed compilations share an exception object, concurrent failing compilations each report their own location" % len(srcs), ok, str(bad[:1] or missing[:3] or cross[:3] or err1))
     res.coverage.update(evaluations=len(srcs) * (64 + 16 + 3), distinct_nontrivial=sum(1 for s in srcs if "def " in s or "class " in s or "lambda" in s), programs=len(srcs),
         rule="every generator of the other properties (control flow, nesting, cleanup, scope, generator histories, consumers, container histories) + nested-scope programs (random and systematic def/class/lambda/comprehension nestings with shared names) + every .py file under /repo (%d) + failing compilations interleaved (syntax errors inside nested scopes); each compiled 64 times sequentially with other compilations in between, once from each of 16 goroutines, and in 3 separate processes; recursive dump of code, consts, names, varnames, freevars, cellvars, cell2arg, flags, stacksize, firstlineno, lnotab, name, filename; non-trivial = has a nested scope" % nfiles,
         samples=[dict(source=srcs[5][:200])], distribution=dict(sources=len(srcs), repo_files=nfiles, failing=sum(1 for s in srcs if s in FAILING)),
